@@ -578,6 +578,7 @@ PROPS = {
                   lambda prog, tier: fmt.run(prog, scope=lambda f: f.unit.startswith("esolver/") or f.unit.endswith("qsopt_ex/exact.c"), floor=40),
                   lambda prog, tier: pair.run(prog, heap=True, units=("esolver/",), floors=(1, 3)),
                   lambda prog, tier: fullscan.run(prog, ["QSexact_print_sol"], ("qsopt_ex/exact.c",), floor=4),
+                  lambda prog, tier: fullscan.run(prog, ["mpq_ILLlib_writebasis"], ("lib_mpq.c",), floor=2),
                   lambda prog, tier: trunc.run(prog)],
         "technique": "path-sensitive typestate dataflow over main's CFG for the exit status (error recorded => non-zero return); "
                      "NULL-test dominance for file handles; table agreement between status constants and the words written; sibling "
